@@ -16,6 +16,7 @@ CORE_PROPS = {
     "C03": {"kits": ["SC"], "prefix": "C03:"},
     "C04": {"kits": ["H", "DH", "SC"], "prefix": "C04:"},
     "C05": {"kits": ["H", "DH", "SC"], "prefix": "C05:"},
+    "C18": {"kits": ["H", "DH", "SC"], "prefix": "C18:", "ukey": "c18_", "freeze": True},
 }
 BUDGET = {
     "quick": {"s2c": 16000, "histories": 240, "length": 25},
@@ -57,17 +58,18 @@ WHEN = {
 }
 
 
-def run_kit(kit, tier, seed_, budget):
+def run_kit(kit, tier, seed_, budget, ukey=None, freeze=False):
     """model check + S->C + C->S + validation for one kit.  Returns (mc, recs, bad)."""
     t = common.Timer()
-    mc = core.model_check(kit, tier)
+    mc = core.model_check(kit, tier, ukey=ukey)
     log(f"[{kit.name}] TLC: {mc['states']} distinct states, {mc['transitions']} transitions, depth {mc['depth']}, "
         f"{mc['emitted_states']} states emitted ({t():.0f}s)")
     recs, info = core.s2c(kit, mc, budget=budget["s2c"], seed_=seed_)
     for r in recs:
         r["dir"] = "S2C"
     log(f"[{kit.name}] S->C: {len(recs)} of {info['pairs_total']} (state, op) inputs replayed ({t():.0f}s)")
-    hrecs = core.c2s(kit, histories=budget["histories"], length=budget["length"], seed_=seed_)
+    hrecs = core.c2s(kit, histories=budget["histories"], length=budget["length"], seed_=seed_,
+                     extra={"freeze": True} if freeze else None)
     for r in hrecs:
         r["dir"] = "C2S"
     log(f"[{kit.name}] C->S: {budget['histories']} histories, {len(hrecs)} calls ({t():.0f}s)")
@@ -146,7 +148,9 @@ def core_check(prop, tier, seed_):
         kit = core._KITS.get(kname)
         if kit is None:
             continue
-        mc, recs, bad, info = run_kit(kit, tier, seed_, budget)
+        mc, recs, bad, info = run_kit(kit, tier, seed_, budget,
+                                      ukey=(spec["ukey"] + tier) if spec.get("ukey") else None,
+                                      freeze=spec.get("freeze", False))
         selftests[kname] = selftest(kit, recs, bad)
         cov["states"] += mc["states"]
         cov["transitions"] += mc["transitions"]
